@@ -70,6 +70,19 @@ CLAIMED = {
              "and maps whose keys are free symbols of interpretation bodies are compared with the documented "
              "replacement only.",
         design="§3 C05"),
+    "C07": dict(
+        category="exploration",
+        technique="bounded-exhaustive enumeration of formulas x four export routes, each text read by an independent "
+                  "strict SMT-LIB reader/sort-checker and evaluated under every interpretation",
+        text="Every term of 16 (thorough 18) profiles - all operators incl. indexed ones, negative/rational/huge "
+             "constants, strings with quotes, constant arrays, nested/shadowing quantifiers, symbols whose names need "
+             "quoting or equal the printer's let names, custom sorts of arity 0 and 1 - is exported as term (tree, DAG) "
+             "and as script (tree, DAG); smtref checks the text is well-formed, every sort and symbol declared exactly "
+             "once before use and well-sorted, then its value under every interpretation must equal the formula's.",
+        note="Trusted: mc/core/smtref.py (independent reading of SMT-LIB 2.6; accepted deviations in its docstring) "
+             "and refsem. POW and undeclarable names are excluded as the statement says; a clean "
+             "NoLogicAvailableError from the script generator is a refusal, not an export.",
+        design="§3 C07"),
     "C10": dict(
         category="exploration",
         technique="bounded-exhaustive enumeration of Boolean skeletons over theory atoms and quantifiers; equivalence by "
@@ -221,7 +234,7 @@ ENGINES = [
          kind_free_text="exhaustive table-driven enumeration over finite operand domains"),
     dict(name="explorer", path="mc/core/explorer.py", serves_properties=["C14", "C15", "C16", "C17"],
          kind_free_text="explicit-state breadth-first search over API histories replayed on fresh real objects in lock-step with a reference model"),
-    dict(name="sweep", path="mc/core/sweep.py", serves_properties=["C01", "C02", "C03", "C05", "C10", "C11", "C12", "C13"],
+    dict(name="sweep", path="mc/core/sweep.py", serves_properties=["C01", "C02", "C03", "C05", "C07", "C10", "C11", "C12", "C13"],
          kind_free_text="sharded bounded-exhaustive term enumeration (termgen) + reference semantics (refsem)"),
 ]
 
